@@ -68,6 +68,10 @@ type StreamCfg struct {
 	// VP8 descriptor shape
 	VP8L, VP8K bool // TL0PICIDX / KEYIDX present
 	VP8NoT     bool // no T bit: every packet is tid 0
+	// VP8Parts: packets after the first of a frame may begin a later VP8 partition (S=1 with
+	// a non-zero partition index): NOT a frame start.  0 = Generate decides (half of the
+	// streams), 1 = never, 2 = always possible
+	VP8Parts int
 	// VP9
 	Flexible bool
 	SLayers  int // spatial layers 1..3 (VP9 only)
@@ -91,7 +95,7 @@ var TemporalPatterns = [][]uint8{
 	{0, 3, 2, 3, 1, 3, 2, 3},
 }
 
-func vp8Desc(cfg *StreamCfg, start bool, pid uint16, tid uint8, y bool, nonref bool, tl0, keyidx uint8) []byte {
+func vp8Desc(cfg *StreamCfg, start bool, part uint8, pid uint16, tid uint8, y bool, nonref bool, tl0, keyidx uint8) []byte {
 	i := cfg.PidBits != 0
 	t := !cfg.VP8NoT
 	x := i || cfg.VP8L || t || cfg.VP8K
@@ -105,6 +109,8 @@ func vp8Desc(cfg *StreamCfg, start bool, pid uint16, tid uint8, y bool, nonref b
 	}
 	if start {
 		b0 |= 0x10
+	} else if part > 0 {
+		b0 |= 0x10 | part&7 // start of a later partition
 	}
 	b = append(b, b0)
 	if !x {
@@ -213,6 +219,10 @@ func Generate(cfg *StreamCfg, r *rand.Rand) []*Pkt {
 	if cfg.Codec == VP9 && cfg.SLayers > 1 {
 		sl = cfg.SLayers
 	}
+	parts := cfg.VP8Parts == 2
+	if cfg.Codec == VP8 && cfg.VP8Parts == 0 {
+		parts = r.IntN(2) == 0
+	}
 	for pic := 0; pic < cfg.Pictures; pic++ {
 		key := pic == 0 || (cfg.KeyEvery > 0 && pic%cfg.KeyEvery == 0) || (cfg.KeyProb > 0 && r.Float64() < cfg.KeyProb)
 		var tid uint8
@@ -250,7 +260,11 @@ func Generate(cfg *StreamCfg, r *rand.Rand) []*Pkt {
 				var hdr byte
 				switch cfg.Codec {
 				case VP8:
-					desc = vp8Desc(cfg, p.Start, pid, tid, up, false, tl0, keyidx)
+					part := uint8(0)
+					if parts && k > 0 && r.IntN(2) == 0 {
+						part = uint8(1 + r.IntN(7))
+					}
+					desc = vp8Desc(cfg, p.Start, part, pid, tid, up, false, tl0, keyidx)
 					hdr = 0x01 | byte(r.UintN(128))<<1
 					if key {
 						hdr &^= 0x01
